@@ -9,6 +9,8 @@ structure Rng where
   s : Nat
   victim : Nat := 0      -- k > 0: the k-th bounded position met gets a length of max + 1 (hostile "over the maximum, bytes present" inputs)
   hit : Bool := false
+  spine : Nat := 0       -- s + 1: "spine" mode — every counted array of a named type holds exactly one element for s more levels, then none
+                         -- (a path of nesting depth s through the counted arrays of a recursive type); 0: off
   left : Nat := 200      -- elements of counted arrays still allowed in this value: a type that recurses through several counted
                          -- arrays per level (`st4 { st5 xs<>; st5 ys<4>; }`, `st5 { st4 a; st4 b; st4 c; }`) would otherwise grow like 18^depth
 
@@ -108,6 +110,12 @@ def genArr (a : Ast) : Nat → Nat → ArrayType → Rng → XVal × Rng
        | .opaque => let (n, r1) := genLen lim 17 r; let (bs, r2) := genPayload n r1; (.varOpaque bs, r2)
        | .string => let (n, r1) := genLen lim 21 r; let (bs, r2) := genUtf8 (n + 1) n r1; (.str bs, r2)
        | t =>
+         if r.spine > 0 then
+           let more := r.spine > 1 && (match lim with | some m => m ≥ 1 | none => true)
+           let r1 := { r with spine := if more then r.spine - 1 else 1 }
+           let (xs, r2) := genMany a fuel (depth + 1) t (if more then 1 else 0) r1
+           (.varArr xs, r2)
+         else
          let (n, r1) := genLen lim (if depth ≥ 3 then 1 else 3) r
          let fired := r1.hit && !r.hit
          let n := if depth ≥ 5 && !fired then 0 else n
